@@ -236,9 +236,15 @@ def make_lf(spec, tree_value=None, lengths=None, aln=None):
             lf.set_param_rule("length", edge=e, value=float(l), is_constant=True)
         for t, v in spec["params"].items():
             lf.set_param_rule(t, value=float(v), is_constant=True)
-        for e, pv in (spec.get("edge_params") or {}).items():
-            for t, v in pv.items():
-                lf.set_param_rule(t, edge=e, value=float(v), is_constant=True)
+        if spec.get("scope_rule"):
+            # the same per-edge values, given the way a user does: two tip names and the stem / clade switches
+            r = spec["scope_rule"]
+            kw2 = {k: r[k] for k in ("stem", "clade") if r.get(k) is not None}
+            lf.set_param_rule(r["term"], tip_names=list(r["tips"]), value=float(r["value"]), is_constant=True, **kw2)
+        else:
+            for e, pv in (spec.get("edge_params") or {}).items():
+                for t, v in pv.items():
+                    lf.set_param_rule(t, edge=e, value=float(v), is_constant=True)
         for e, P in (spec.get("discrete") or {}).items():
             lf.set_param_rule("dpsubs", edge=e, value=numpy.array(P, float), is_constant=True)
         if bins:
@@ -617,6 +623,44 @@ def lattice_for(kind, tier):
     return PAR_LATTICE[tier]
 
 
+def scope_edges(tree, tips, stem, clade):
+    """edges a rule given by two tip names covers: the edge above their last common ancestor (stem) and / or every edge
+    below it (clade); the documented default is the clade unless stem is asked for, then the stem alone"""
+    stem = bool(stem)
+    clade = (not stem) if clade is None else bool(clade)
+
+    def find(t):
+        """(node covering all tips or None, set of tips below)"""
+        if isinstance(t, str):
+            return (t if set(tips) <= {t} else None), {t}
+        below = set()
+        for k in t[1]:
+            hit, b = find(k)
+            if hit is not None:
+                return hit, b
+            below |= b
+        return (t if set(tips) <= below else None), below
+
+    node, _ = find(tree)
+    if node is None or isinstance(node, str) or node[0] == "root":
+        return None
+
+    def names_below(t):
+        out = []
+        for k in t[1]:
+            out.append(k if isinstance(k, str) else k[0])
+            if not isinstance(k, str):
+                out += names_below(k)
+        return out
+
+    out = []
+    if clade:
+        out += names_below(node)
+    if stem:
+        out.append(node[0])
+    return out
+
+
 def spec_is_directed_nuc(name, terms):
     return F.MODELS[name][0] == "nuc" and {"T>C", "C>A", "A>G"} <= set(terms)
 
@@ -679,6 +723,17 @@ def configs_for(name, model_kw, shape_index, ntips, tier, part):
         if not model_kw:
             for ex in ("eigen", "checked", "pade", "either"):
                 out.append(dict(common, lengths=base_lengths(edges), params=pv, pi=pi, expm=ex))
+            if kind == "nuc" and terms and ntips >= 4:
+                term = terms[0]
+                for a, b in itertools.combinations(tips, 2):
+                    for stem, clade in ((True, None), (None, None), (True, True), (False, True), (None, True)):
+                        es = scope_edges(tree, (a, b), stem, clade)
+                        if not es:
+                            continue
+                        c = dict(common, lengths=base_lengths(edges), params=pv, pi=pi,
+                                 edge_params={e: {term: 7.5} for e in es},
+                                 scope_rule={"term": term, "tips": [a, b], "stem": stem, "clade": clade, "value": 7.5})
+                        out.append(c)
             if spec_is_directed_nuc(name, terms):
                 # nearly defective Q inside the parameter bounds: a one-way chain T>C>A>G with equal large rates, every
                 # other rate on the lower bound; only the fallback of the default ("either") setting gets exp(Qt) right
